@@ -23,7 +23,7 @@ func propSeq(t *rapid.T) {
 	cfg := hist.GenConfig(t, []uint{0, 100}, false)
 	m := hist.Run(t, cfg, hist.Options{
 		Weights: map[string]int{"fund": 2, "mintquote": 6, "pay": 5, "deliver": 5, "pollmint": 4, "mint": 8, "mint_fault": 4, "lockedmint": 8,
-			"meltquote": 4, "melt": 4, "swap": 1, "restart": 1},
+			"meltquote": 4, "melt": 4, "swap": 1, "restart": 1, "cancel_invoice": 3},
 		Owns:   []string{"C03"},
 		PropID: "C03",
 	})
